@@ -925,28 +925,28 @@ def c14_pairs(ctx):
     rng = ctx.rng
     pairs = []
     methods = german_methods(ctx)
-    for m in (methods if not ctx.quick else rng.sample(methods, 10) + ["02", "16", "25"]):
+    for m in (methods if not ctx.quick else rng.sample(methods, 5) + ["02", "16", "25"]):
         accs = german_accounts(ctx, 4 if ctx.quick else 16) + ["0000001211", "0000000014"]
-        for _ in range(2 if ctx.quick else 8):
+        for _ in range(1 if ctx.quick else 8):
             a1, a2 = rng.sample(accs, 2)
             pairs.append(({"kind": "algo_validate", "key": "DE:" + m, "account": a1},
                           {"kind": "algo_validate", "key": "DE:" + m, "account": a2}))
         pairs.append(({"kind": "algo_validate", "key": "DE:" + m, "account": "0000001211"},
                       {"kind": "algo_compute", "key": "DE:" + m, "account": "0000000014"}))
     # cross-method pairs that share a class hierarchy, and public API calls routed to the same singleton
-    for _ in range(6 if ctx.quick else 40):
+    for _ in range(3 if ctx.quick else 40):
         m1, m2 = rng.sample(methods, 2)
         pairs.append(({"kind": "algo_validate", "key": "DE:" + m1, "account": german_accounts(ctx, 1)[0]},
                       {"kind": "algo_validate", "key": "DE:" + m2, "account": german_accounts(ctx, 1)[0]}))
     tsv = os.path.join(os.path.dirname(HERE), "coq", "theories", "Gen", "banks.tsv")
     de = [dec(l.split("\t")[2]) for l in open(tsv) if dec(l.split("\t")[1]) == "DE" and l.split("\t")[5].strip() not in ("none",)]
-    for _ in range(4 if ctx.quick else 30):
+    for _ in range(2 if ctx.quick else 30):
         ibans = []
         for _k in range(2):
             b = rng.choice(de) + german_accounts(ctx, 1)[0]
             ibans.append("DE" + iso_digits("DE", b) + b)
         pairs.append(({"kind": "iban", "text": ibans[0]}, {"kind": "iban", "text": ibans[1]}))
-    for cc in (["ES", "IT", "FR", "NO", "BE"] if ctx.quick else NATIONAL):
+    for cc in (["ES", "IT"] if ctx.quick else NATIONAL):
         if cc in ctx.facts["iban_rows"]:
             pairs.append(({"kind": "iban", "text": valid_iban(ctx, cc)}, {"kind": "iban", "text": valid_iban(ctx, cc)}))
     pairs.append(({"kind": "from_bank_code", "cc": "DE", "code": "43060967"}, {"kind": "from_bank_code", "cc": "DE", "code": "01010101"}))
